@@ -135,6 +135,8 @@ MUTANTS: dict[str, dict[str, list[tuple[str, str, str]]]] = {
         return self._instance""")],
     },
     'C06': {
+        'literal-hash-collides-again': [('forml/io/dsl/_struct/series.py',
+                                         "return super().__hash__() ^ hash(repr(self.value))", 'return super().__hash__()')],
         'cache-key-forgets-literals': [('forml/provider/feed/alchemy.py', "compile_kwargs={'literal_binds': True}",
                                         "compile_kwargs={'literal_binds': False}")],
         'cache-key-truncated': [('forml/provider/feed/alchemy.py', ').encode()).hexdigest()', ').encode()).hexdigest()[:1]')],
@@ -161,6 +163,47 @@ MUTANTS: dict[str, dict[str, list[tuple[str, str, str]]]] = {
         'dumper-not-linked-to-committer': [('forml/flow/_code/compiler.py',
                                             'self._linkage.insert(self._committer, dumper, self._assets.offset(state))',
                                             'self._linkage.insert(self._committer, dumper, 0) if not self._linkage[self._committer] else None')],
+    },
+    'C20': {
+        'providers-iterated-live-again': [('forml/provider/__init__.py', 'return iter(tuple(BANK[cls].provider))',
+                                           'return iter(BANK[cls].provider)')],
+        'collision-check-dropped': [('forml/provider/__init__.py', """                raise forml.UnexpectedError(f'Provider reference collision ({ref})')
+""", """                continue
+""")],
+        'abstract-providers-registered': [('forml/provider/__init__.py', """        if isabstract(provider):
+            return
+""", '')],
+        'lookup-gives-up-after-one-import': [('forml/provider/__init__.py',
+                                              'while reference not in self.provider and paths:',
+                                              'if reference not in self.provider and paths:')],
+        'alias-specific-paths-forgotten': [('forml/provider/__init__.py',
+                                            'paths = [*self.paths, *reference.paths(self.paths)]',
+                                            'paths = [*self.paths]')],
+        'qualified-reference-matched-by-name-only': [('forml/provider/__init__.py', """            module = value.__module__
+            qualname = value.__qualname__
+        return Qualifier(module, qualname)""", """            module = value.__module__
+            qualname = value.__qualname__
+        return Qualifier(module.rsplit('.', 1)[-1], qualname)""")],
+        'lists-merged-old-first': [('forml/setup/_conf.py',
+                                    'value = *right[key], *(v for v in left[key] if v not in right[key])',
+                                    'value = *left[key], *(v for v in right[key] if v not in left[key])')],
+        'lists-replaced-not-merged': [('forml/setup/_conf.py',
+                                       'elif key in common and isinstance(left[key], (list, tuple)) and isinstance(right[key], (list, tuple)):',
+                                       'elif False:')],
+        'unreadable-source-aborts': [('forml/setup/_conf.py', """        except PermissionError as err:  # soft error (warn)
+            self._errors[path] = err
+""", '')],
+        'invalid-source-skipped-silently': [('forml/setup/_conf.py', """        except ValueError as err:  # hard error (abort)
+            raise RuntimeError(f'Invalid config file {path}: {err}') from err
+""", """        except ValueError as err:
+            self._errors[path] = err
+""")],
+        'kwargs-merged-before-positional': [('forml/setup/_conf.py',
+                                             'super().update(merge(merge(self, other or {}), kwargs))',
+                                             'super().update(merge(merge(self, kwargs), other or {}))')],
+        'explicit-params-lose-against-section': [('forml/setup/_conf.py', """        kwargs.update(kwargs.pop(OPT_PARAMS, {}))
+        return [], kwargs""", """        kwargs = {**kwargs.pop(OPT_PARAMS, {}), **kwargs}
+        return [], kwargs""")],
     },
     'C11': {
         'any-dying-subscription-frees-the-port': [('forml/flow/_graph/port.py', 'if ports and ports.get(self.port) == id(self):',
